@@ -35,7 +35,7 @@ TIME_LIMIT = {"quick": 35, "thorough": 700}
 PAIRS = {"quick": 2, "thorough": 40}  # ordered pairs per shard (on top of the fixed decimal pairs)
 REACH = {
     "quick": {"schedules_executed": 5000, "one_preemption_schedules": 4000, "multi_preemption_schedules": 300,
-              "pairs_explored": 20, "decimal_pairs": 4, "stress_ops_compared": 3000, "fresh_schema_schedules": 300},
+              "pairs_explored": 20, "decimal_pairs": 4, "stress_ops_compared": 3000, "fresh_schema_schedules": 300, "fresh_reader_schema_schedules": 200},
     "thorough": {"schedules_executed": 100000},
 }
 
@@ -371,18 +371,63 @@ def run_shard(spec):
         "jwrite": lambda S: (lambda o: (fa.json_writer(o, S, [fresh_datum]), o.getvalue())[1])(io.StringIO()),
         "cwrite": lambda S: (lambda o: (fa.writer(o, S, [fresh_datum, fresh_datum], sync_marker=b"\x07" * 16), o.getvalue())[1])(io.BytesIO()),
     }
+    # the fresh parsed schema used as a *reader* schema by both threads (data written by an older version)
+    OLD = {"type": "record", "name": "Fresh", "namespace": "c18", "fields": [
+        {"name": "e", "type": {"type": "enum", "name": "Big", "symbols": ["S%d" % i for i in range(120)]}},
+        {"name": "u", "type": ["null", "Big", "string"]},
+        {"name": "gone", "type": "long"}]}
+    old_bytes = (lambda b: (fa.schemaless_writer(b, OLD, {"e": "S5", "u": "S7", "gone": 3}), b.getvalue())[1])(io.BytesIO())
+    old_file = (lambda b: (fa.writer(b, OLD, [{"e": "S5", "u": None, "gone": i} for i in range(3)], sync_marker=b"\x08" * 16), b.getvalue())[1])(io.BytesIO())
+
+    def fresh_reader_schema():
+        js = {"type": "record", "name": "Fresh", "namespace": "c18", "fields": [
+            {"name": "u", "type": ["null", {"type": "enum", "name": "Big", "symbols": ["S%d" % i for i in range(120)]}, "string"]},
+            {"name": "e", "type": "Big"},
+            {"name": "m", "type": {"type": "map", "values": "Big"}, "default": {}},
+            {"name": "extra1", "type": "int", "default": 1}, {"name": "extra2", "type": "string", "default": "x"},
+            {"name": "extra3", "type": ["null", "long"], "default": None}, {"name": "old_e", "type": "string", "default": "-", "aliases": ["zz"]}]}
+        return fa.parse_schema(js)
+
+    OLDP = fa.parse_schema(copy.deepcopy(OLD))  # the writer's schema is not what is under test: parsed once
+    fresh_ops["resolve_sread"] = lambda S: fa.schemaless_reader(io.BytesIO(old_bytes), OLDP, S)
+    fresh_ops["resolve_cread"] = lambda S: list(fa.reader(io.BytesIO(old_file), reader_schema=S))
+    reader_side = {"resolve_sread", "resolve_cread"}
     fseq, fnev = {}, {}
     for n, fn in fresh_ops.items():
-        S1 = fresh_schema()
+        S1 = fresh_reader_schema() if n in reader_side else fresh_schema()
         cnt, res, _l = sched.count_events(lambda: fn(S1))
         fseq[n], fnev[n] = res, cnt
     fnames = sorted(fresh_ops)
-    fresh_budget = 40 if tier == "quick" else 2000
+    # the two reader-side operations are short: every single-preemption schedule of one of them, in four shards
+    if spec["shard"] < 4:
+        a, b = [("resolve_sread", "resolve_sread"), ("resolve_sread", "resolve_cread"), ("resolve_cread", "resolve_sread"), ("resolve_cread", "resolve_cread")][spec["shard"]]
+        for pnt in range(1, fnev[a] + 1):
+            if sh.out_of_time() or sh.violations:
+                break
+            S2 = fresh_reader_schema()
+            run = sched.Run([lambda: fresh_ops[a](S2), lambda: fresh_ops[b](S2)], sched.preempt_points({(0, pnt): 1}))
+            try:
+                res = run.execute(first=0)
+            except sched.Deadlock:
+                sh.count("deadlocked_runs_inconclusive")
+                continue
+            sh.count("fresh_schema_schedules")
+            sh.count("fresh_reader_schema_schedules")
+            sh.count("schedules_executed")
+            sh.case(h64("fresh-reader", a, b, pnt), True)
+            for x, r in zip((a, b), res):
+                if not same(r, fseq[x]):
+                    sh.violation("concurrent-result-differs",
+                                 "first use of one freshly parsed reader schema by two threads (%s preempted at event %d by %s): %s returned %s, alone it returns %s"
+                                 % (a, pnt, b, x, printable(r, 160), printable(fseq[x], 160)), {"stress": ["fresh-reader", a, b, pnt]})
+                    break
+    fresh_budget = 60 if tier == "quick" else 3000
     for _k in range(fresh_budget):
         if sh.out_of_time() or sh.violations:
             break
-        a, b = rng.choice(fnames), rng.choice(fnames)
-        S2 = fresh_schema()
+        a = rng.choice(fnames)
+        b = rng.choice([x for x in fnames if (x in reader_side) == (a in reader_side)])
+        S2 = fresh_reader_schema() if a in reader_side else fresh_schema()
         # the event count of a first use under a seeded change may be far larger than profiled: sample widely
         pnt = rng.randint(1, max(2, fnev[a])) if rng.random() < 0.5 else rng.randint(1, 40 * max(2, fnev[a]))
         run = sched.Run([lambda: fresh_ops[a](S2), lambda: fresh_ops[b](S2)], sched.preempt_points({(0, pnt): 1}))
